@@ -183,6 +183,12 @@ func (x *Exec) staticCall(i *ssa.Call, callee *ssa.Function) Val {
 		x.havocArgs(com.Args, vals)
 		return x.freshVal("nc_"+callee.Name(), resT)
 	}
+	if pkgPath == "math" && x.th.Mode() == "int" {
+		if v, ok := x.floatMathCall(callee, vals); ok {
+			x.w.noteTrusted("math."+callee.Name(), "IEEE 754 classification of the bit pattern (package documentation)")
+			return v
+		}
+	}
 	if pkgPath == "math/big" && x.th.Mode() == "int" {
 		if v, ok := x.bigCall(i, callee, vals); ok {
 			return v
